@@ -25,6 +25,9 @@ from aquacrop import (  # noqa: E402
 )
 from aquacrop.entities.crops.crop_params import crop_params  # noqa: E402
 
+# the documented catalogue as it is at import time, before any Crop object has been built in this process
+PRISTINE_CROP_PARAMS = copy.deepcopy(crop_params)
+
 WEATHER_COLS = ["MinTemp", "MaxTemp", "Precipitation", "ReferenceET", "Date"]
 
 BUILTIN_SOILS = [
@@ -267,12 +270,13 @@ def build_gw(g):
 def build_co2(c):
     if c is None:
         return None
+    extra = {"ref_concentration": float(c["ref"])} if "ref" in c else {}
     if "constant" in c:
-        return CO2(constant_conc=True, current_concentration=float(c["constant"]))
+        return CO2(constant_conc=True, current_concentration=float(c["constant"]), **extra)
     if "constant_default" in c:
-        return CO2(constant_conc=True)
+        return CO2(constant_conc=True, **extra)
     tab = c["table"]
-    return CO2(co2_data=pd.DataFrame({"year": [int(y) for y, _ in tab], "ppm": [float(p) for _, p in tab]}))
+    return CO2(co2_data=pd.DataFrame({"year": [int(y) for y, _ in tab], "ppm": [float(p) for _, p in tab]}), **extra)
 
 
 def build(cfg, weather_df=None):
